@@ -4,6 +4,7 @@ import io
 
 from core import natlists, hx, exc_kind, safe_check
 from props.c02 import bits
+import dbutil
 from cliutil import run_cli
 from worlds import GenomeWorld
 
@@ -13,7 +14,9 @@ RULE = ('(query genomes, reference genomes, how each side is supplied: 3 x 5 = f
         'signature file / database / --square, -k/-p given or not, -c cores). File names include spaces, commas, quotes, double extensions, .gz. '
         'The Lean model distCsv is instantiated with cell(i,j) := bits of the real jaccarddist of the real single-genome signatures; labels are derived in '
         'Lean from the paths (fileLabel) or are the stored IDs. The CSV text must be byte-identical. Plus a CSV writer/reader sub-stream against '
-        'CPython\'s csv module, and fmt4 against format(x, "0.4f") incl. exact 5th-decimal ties. Non-trivial = distinct case with >= 2 queries and '
+        'CPython\'s csv module, and fmt4 against format(x, "0.4f") incl. exact 5th-decimal ties. Also: signature files of prescribed sizes giving cells D / U '
+        '(5 in the fifth decimal, exact and inexact), inputs through symbolic links and as multi-member gzip files, an earlier invocation in the same process '
+        'that failed part-way through a large truncated genome. Non-trivial = distinct case with >= 2 queries and '
         '>= 2 references and a non-constant matrix.')
 TRUSTED = ['harness/props/c16.py, harness/worlds.py + Driver/C16.lean', 'click option parsing', 'CPython float formatting (validated by the fmt4 stream of C02)']
 ASSUMPTIONS = ['the command is run with consistent k-mer parameters (mismatches are C14)']
@@ -48,6 +51,31 @@ def check(ctx, case):
 	if case['kind'] == 'label':
 		from gambit.cli.common import get_file_id
 		return [f'c16.label {hx(case["path"].encode())} {hx(get_file_id(case["path"]).encode())}'], []
+	if case['kind'] == 'crafted':
+		# signature files with prescribed sizes: queries range(0, U), references range(D, U) -> distance D / U for chosen (D, U):
+		# cells whose fifth decimal is a 5 (exact ties such as 1/32 and inexact ones such as 1/160), 0, 1, values next to a rounding boundary
+		from gambit.kmers import KmerSpec
+		from gambit.sigs import AnnotatedSignatures, SignatureList, SignaturesMeta, dump_signatures
+		ks = KmerSpec(11, 'ATGAC')
+		qsigs = [np.arange(0, U, dtype=ks.index_dtype) for U in case['Us']]
+		rsigs = [np.arange(D, U, dtype=ks.index_dtype) for D, U in case['refs']]
+		qp, rp = w.sc.path(suffix='.gs'), w.sc.path(suffix='.gs')
+		qids = [f'q{i}' for i in range(len(qsigs))]
+		rids = [f'r{i}' for i in range(len(rsigs))]
+		dump_signatures(qp, AnnotatedSignatures(SignatureList(qsigs, ks), qids, SignaturesMeta(id_attr='key')))
+		dump_signatures(rp, AnnotatedSignatures(SignatureList(rsigs, ks), rids, SignaturesMeta(id_attr='key')))
+		out = w.sc.path(suffix='.csv')
+		args = ['dist', '-o', out, '--no-progress', '--qs', qp] + (['--square'] if case.get('square') else ['--rs', rp])
+		code, so, se, exc = run_cli(args)
+		if code != 0 or not out.exists():
+			return [], [f'gambit dist failed: exit {code} {se[-300:]} {exc!r}']
+		if case.get('square'):
+			rsigs, rids = qsigs, qids
+		table = [[bits(metric.jaccarddist(a, b)) for b in rsigs] for a in qsigs]
+		text = out.read_bytes()
+		out.unlink(); qp.unlink(); rp.unlink()
+		case['_nt'] = True
+		return [f'c16.dist s {strs(qids)} s {strs(rids)} {natlists(table)} {hx(text)}'], []
 	qs = [w.genomes[i] for i in case['q']]
 	if case.get('namesake_queries'):
 		# a query side that contains two different genomes with the same file name (= the same label), labels not in sorted order
@@ -69,6 +97,9 @@ def check(ctx, case):
 	# query side
 	if case['qkind'] == 'files':
 		qpaths = [(g['link'] if (case.get('links') and 'link' in g) else g['path']) for g in qs]
+		if case.get('mm_queries'):
+			# the same genomes as multi-member gzip files (bgzip / `cat a.gz b.gz`), same base name hence same label
+			qpaths = [(w.multi_member_gz(g) if (f and 'contigs' in g and 'link' in g) else p_) for g, f, p_ in zip(qs, case['mm_queries'], qpaths)]
 		for qp in qpaths:
 			args += ['-q', qp]
 		qk, qtok = 'f', [str(qp) for qp in qpaths]
@@ -103,6 +134,19 @@ def check(ctx, case):
 	# which parameters are in force: explicit / a signature source / the default (C14)
 	uses_spec = case.get('explicit') or case['qkind'] == 'sigs' or case['rkind'] in ('sigs', 'db')
 	spec = w.spec if uses_spec else (11, 'ATGAC')
+	if case.get('after_failed_run'):
+		# an earlier invocation in this process that fails part-way through a genome (truncated gzip with several contigs)
+		import gzip as _gz
+		bad = w.sc.path(suffix='.fasta.gz')
+		r_ = __import__('random').Random(5)
+		# large enough that many records are parsed (and their k-mers found) before the stream breaks
+		data = _gz.compress(b''.join(b'>c%d\n' % i + dbutil.rand_dna(r_, 8000) + b'\n' for i in range(30)))
+		bad.write_bytes(data[:len(data) // 2])
+		bout = w.sc.path(suffix='.csv')
+		run_cli(['dist', '-o', bout, '--no-progress'] + (['-k', w.spec[0], '-p', w.spec[1]] if case.get('explicit') else []) + ['-q', bad, '--square'] + (['-c', 1] if case['after_failed_run'] == 'c1' else []))
+		for p_ in (bad, bout):
+			if p_.exists():
+				p_.unlink()
 	code, so, se, exc = run_cli(args, cwd=(w.decoy_cwd if case.get('decoy_cwd') else None))
 	if code != 0 or not out.exists():
 		if case['rkind'] == 'db':
@@ -159,6 +203,15 @@ def run(ctx):
 			if lt == '\n' and any('\r' in f and not any(c in f for c in ',"\n') for r in rows for f in r):
 				continue
 			sub({'kind': 'csvrt', 'rows': rows, 'lt': lt}, 'csv-model')
+		# prescribed ratios D / U
+		for j in range(ctx.q(40, 400)):
+			Us = [rng.choice([160, 32, 320, 1600, 800, 96, 2000, 640, rng.randint(2, 3000)]) for _ in range(rng.randint(1, 3))]
+			refs = []
+			for _ in range(rng.randint(1, 5)):
+				U = rng.choice(Us)
+				D = rng.choice([1, 3, 5, U - 1, U - 3, rng.randrange(0, U), rng.randrange(1, U, 2) if U > 2 else 1, 0])
+				refs.append([min(D, U - 1), U])
+			sub({'kind': 'crafted', 'Us': Us, 'refs': refs, 'square': rng.random() < 0.15}, 'prescribed-ratios')
 		# the 3 x 5 grid
 		for qkind in ('files', 'list', 'sigs'):
 			for rkind in ('files', 'list', 'sigs', 'db', 'square'):
@@ -181,7 +234,9 @@ def run(ctx):
 						nq = [False] * len(q)
 						nq[i + rng.randint(0, 1)] = True
 					sub({'kind': 'dist', 'qkind': qkind, 'rkind': rkind, 'q': q, 'r': r, 'explicit': explicit, 'cores': rng.choice([None, 1, 2, 4]),
-					     'blank': rng.random() < 0.3, 'namesake_refs': ns, 'namesake_queries': nq, 'decoy_cwd': rng.random() < 0.5, 'db2': rng.random() < 0.5, 'links': rng.random() < 0.3}, 'dist')
+					     'blank': rng.random() < 0.3, 'namesake_refs': ns, 'namesake_queries': nq, 'decoy_cwd': rng.random() < 0.5, 'db2': rng.random() < 0.5, 'links': rng.random() < 0.3,
+					     'mm_queries': ([rng.random() < 0.5 for _ in q] if (qkind == 'files' and rng.random() < 0.4) else None),
+					     'after_failed_run': rng.choice([None, None, 'c1', 'default'])}, 'dist')
 	finally:
 		if _w is not None:
 			_w.cleanup()
